@@ -263,6 +263,56 @@ Proof.
   reflexivity.
 Qed.
 
+(* ---------------------------------------------------------------- the symbolic form of the denotation *)
+
+Local Open Scope Q_scope.
+
+Definition sci_agree (a : option sci) (b : option Q) : Prop :=
+  match a, b with
+  | Some t, Some q => q == sci_val t
+  | None, None => True
+  | _, _ => False
+  end.
+
+Lemma apply_sign_comp neg a b : a == b -> apply_sign neg a == apply_sign neg b.
+Proof. intros H. destruct neg; cbn; now rewrite H. Qed.
+
+Lemma sci_exp_spec neg n k m r :
+  m == inject_Z n * pow10 k -> sci_agree (sci_exp neg n k r) (denote_exp neg m r).
+Proof.
+  intros Hm. unfold sci_exp, denote_exp. destruct r as [|c r3].
+  - cbn. apply apply_sign_comp. rewrite Hm. unfold Qeq; cbn. ring.
+  - destruct (is_e c); [|exact I]. destruct (take_sign r3) as [eneg r4]. destruct (take_digits r4) as [ed r5].
+    destruct ed as [|d ed]; [exact I|]. destruct r5; [|exact I]. cbn [sci_agree sci_val].
+    apply apply_sign_comp. rewrite Hm, pow10_add.
+    setoid_replace (n # Z.to_pos 1) with (inject_Z n) by reflexivity. ring.
+Qed.
+
+Lemma sci_dec_spec neg ip r1 : sci_agree (sci_dec neg ip r1) (denote_dec neg ip r1).
+Proof.
+  unfold sci_dec, denote_dec. destruct (take_frac r1) as [fp r2].
+  destruct (ip ++ fp) eqn:E; [exact I|]. rewrite <- E. apply sci_exp_spec. reflexivity.
+Qed.
+
+Lemma sci_frac_spec neg ip r2 : sci_agree (sci_frac neg ip r2) (denote_frac neg ip r2).
+Proof.
+  unfold sci_frac, denote_frac. destruct (take_digits r2) as [dp r3].
+  destruct ip; [exact I|]. destruct dp; [exact I|]. destruct r3; [|exact I].
+  destruct (digits_val (z0 :: dp) =? 0)%Z; [exact I|]. cbn [sci_agree sci_val].
+  apply apply_sign_comp. rewrite pow10_0. ring.
+Qed.
+
+(* [denote_sci] accepts exactly the strings [denote] accepts and names the same number *)
+Lemma denote_sci_spec s : sci_agree (denote_sci s) (denote s).
+Proof.
+  unfold denote_sci, denote. destruct (take_sign s) as [neg r0]. unfold sci_body, denote_body.
+  destruct (take_digits r0) as [ip r1]. destruct r1 as [|c r2].
+  - apply sci_dec_spec.
+  - destruct (is_slash c); [apply sci_frac_spec|apply sci_dec_spec].
+Qed.
+
+Local Open Scope Z_scope.
+
 (* ---------------------------------------------------------------- printing a rational and reading it back *)
 
 Lemma uint_digits_all u : all_digits (uint_digits u).
